@@ -144,7 +144,7 @@ func runCheck(prop, tier string, seed int) int {
 	// lemmas
 	evidenceSpecs = S
 	lemmaObls := lemmaObligations(S, prop)
-	d := &Discharger{Dir: filepath.Join(outDir, "smt"), Timeout: timeout, Workers: 14, All: tier == "thorough"}
+	d := &Discharger{Dir: filepath.Join(outDir, "smt"), Timeout: timeout, Workers: 8, All: tier == "thorough"}
 	d.Run(all)
 	// an obligation without a definite answer gets a second, unhurried attempt before it counts as
 	// failed: a loaded machine must not turn into an alarm
